@@ -217,3 +217,46 @@ impl KsfBuild for argon2::Argon2<'static> {
     }
     const JOURNALLED: bool = false;
 }
+
+/// Stretch(input) for a spec, computed WITHOUT going through opaque-ke's `Ksf`
+/// impls (Argon2 is called through the `argon2` crate directly with the RFC's
+/// salt = zeroes(16) and output length = input length).  Used by the reference
+/// model.  `None` for fault specs.
+pub fn pure_stretch(spec: &KsfSpec, input: &[u8]) -> Option<Vec<u8>> {
+    match spec {
+        KsfSpec::Identity => Some(input.to_vec()),
+        KsfSpec::Argon2 { m_kib, t, p } => {
+            let params = argon2::Params::new(*m_kib, *t, *p, None).ok()?;
+            let a = argon2::Argon2::new(argon2::Algorithm::Argon2id, argon2::Version::V0x13, params);
+            let mut out = vec![0u8; input.len()];
+            a.hash_password_into(input, &[0u8; 16], &mut out).ok()?;
+            Some(out)
+        }
+        KsfSpec::Argon2Default => {
+            let mut out = vec![0u8; input.len()];
+            argon2::Argon2::default()
+                .hash_password_into(input, &[0u8; 16], &mut out)
+                .ok()?;
+            Some(out)
+        }
+        KsfSpec::H(i) => {
+            let mut out = vec![0u8; input.len()];
+            let mut ctr = 0u32;
+            let mut off = 0;
+            while off < out.len() {
+                let mut h = Sha512::new();
+                h.update(b"vharness-ksf");
+                h.update([*i]);
+                h.update(ctr.to_be_bytes());
+                h.update(input);
+                let block = h.finalize();
+                let n = (out.len() - off).min(block.len());
+                out[off..off + n].copy_from_slice(&block[..n]);
+                off += n;
+                ctr += 1;
+            }
+            Some(out)
+        }
+        KsfSpec::FailAt(_, _) => None,
+    }
+}
